@@ -349,7 +349,7 @@ def _check_solve(tr, step, mol, es, probe, prob):
             rec["harness"] = f"reference AO tensor does not reproduce the package Fock matrix ({ref['fock_err']:.2e})"
             recs.append(rec)
             continue
-        A, B, wd, Xd = ref["A"], ref["B"], ref["wd"], ref["Xd"]
+        A, B, wd = ref["A"], ref["B"], ref["wd"]
         no_b, nv_b = ref["no"], ref["nv"]
         if window is not None:
             eo, nocc_b, norb_b = ref["ob"]["e"], ref["ob"]["nocc"], ref["ob"]["norb"]
@@ -407,6 +407,11 @@ def _check_solve(tr, step, mol, es, probe, prob):
             # root-cause diagnostic: is the initial guess space confined to a proper invariant subspace of the
             # response matrices (a symmetry sector), and did the solver return the lowest states *of that sector*?
             diag = closure_diagnostic(probe, b, blk, A, B, method, e_b, tol) if probe is not None else {}
+            # the missed dense eigenvalue: member of a degenerate cluster?  how far below the returned one?
+            lo = wref[k] - wref[k - 1] if k > 0 else np.inf
+            hi = wref[k + 1] - wref[k] if k + 1 < len(wref) else np.inf
+            diag["missed_root_in_degenerate_cluster"] = bool(min(lo, hi) < 1e-5)
+            diag["missed_gap"] = float(e_b[k] - wref[k])
             rec.update(diag)
             prob.append(dict(cls="not_lowest" if k < n else "extra_not_lowest", member=lab, value=err, state=k, **diag,
                              msg=f"{lab}: returned energies are not the lowest {r} dense eigenvalues (requested {n}): state {k + 1} returned "
@@ -723,6 +728,8 @@ def _desc(tr, si, rec, pr):
         guess_given=bool(step["mode"] != "fresh" and si >= 0 and (step["mode"].startswith("s_") or si > 0)),
         symmetric_geometry=any(g == 0 for _, g in step["mols"]),
         guess_closure_deficient=bool(pr.get("guess_closure_deficient", False)),
+        missed_root_in_degenerate_cluster=bool(pr.get("missed_root_in_degenerate_cluster", False)),
+        missed_gap=float(pr.get("missed_gap", 0.0)), value_over_tol=float(pr.get("value", 0.0)) / float(tr["tol"]),
         lowest_in_closure=bool(pr.get("lowest_in_closure", False)),
         collapses=int(rec.get("collapses") or 0),
     )  # fmt: skip
@@ -809,14 +816,24 @@ def run(chk, tier, seed):
 
     warm()
     traces = lattice(tier) + sequences(tier)
+    import os
+
+    only = os.environ.get("VP_C16_KINDS")  # development aid: restrict the kinds of traces run
+    if only:
+        traces = [t for t in traces if t["kind"] in only.split(",")]
+        chk.cap(f"only kinds {only} were run (VP_C16_KINDS)")
     for t in traces:
         t["seed"] = int(seed)
     chk.planned = sum(len(t["steps"]) for t in traces)
     # determinism: one sample trace twice in two processes must agree bitwise
-    sample = [traces[0], traces[0]]
-    a, b = pmap(run_trace, sample, chunk=1, timeout=600)
-    if is_error(a) or is_error(b) or a[0]["members"][0].get("energies") != b[0]["members"][0].get("energies"):
-        chk.harness_error(f"same case in two processes disagrees: {a} vs {b}")
+    s0 = next((t for t in traces if t["kind"] == "single"), traces[0])
+    a, b = pmap(run_trace, [s0, s0], chunk=1, timeout=600)
+
+    def _sig(x):
+        return None if (is_error(x) or is_timeout(x)) else [(r.get("raised"), [m.get("energies") for m in r["members"]]) for r in x]
+
+    if _sig(a) is None or _sig(a) != _sig(b):
+        chk.harness_error(f"same case in two processes disagrees: {str(a)[:300]} vs {str(b)[:300]}")
     # longest traces first
     order = sorted(range(len(traces)), key=lambda i: -len(traces[i]["steps"]) * len(traces[i]["steps"][0]["mols"]))
     results = pmap(run_trace, [traces[i] for i in order], chunk=6, timeout=900, progress="C16")
@@ -848,6 +865,9 @@ def replay(payload):
     ok = True
     for rec in res:
         print("  step", rec["step"], rec["mode"], rec["mols"], "raised:" + rec["raised"] if rec.get("raised") else "", rec.get("harness", ""))
+        if rec.get("raised") and not any(re.search(pat, rec["raised"]) for pat in LOUD_REFUSALS):
+            ok = False
+            print("   PROBLEM solver crashed on a valid request:", rec["raised"])
         for m in rec.get("members", []):
             print("     ", {k: (v if not isinstance(v, list) else np.round(v, 6).tolist()) for k, v in m.items()})
         for pr in rec["problems"]:
